@@ -247,8 +247,16 @@ func H_struct() {
 	var ks []vKind
 	var toks []*lexer.Token
 	spec := ""
+	// "mini": the 9 kinds that make structure (X, -a, OPTIONS, ( ) [ ] | ... --), to reach longer specs
+	mini := []int{0, 3, 2, 9, 10, 11, 12, 13, 14, 15}
+	useMini := vParamInt("mini") == 1
 	for i := 0; i < n; i++ {
-		kd := vKinds[vChoice("kind", len(vKinds))]
+		var kd vKind
+		if useMini {
+			kd = vKinds[mini[vChoice("kind", len(mini))]]
+		} else {
+			kd = vKinds[vChoice("kind", len(vKinds))]
+		}
 		vAssume(kd.declared) // structural equivalence is about well-formed specs
 		if i > 0 {
 			spec += " "
